@@ -22,8 +22,10 @@ func init() {
 		Explanation: "Decided (necessary conditions): (R12.1) module identity covers every compile input – at each Engine.CompileModule call site the listener and close-on-context-done arguments are the very values given to AssignModuleID, every AssignModuleID parameter flows into the hash, and listener presence is hashed per function inside the loop over the listeners; " +
 			"(R12.2) the compile paths of both engines read no module field that depends on a non-semantic option and is not part of the identity (Memory.Cap, CustomSections; DWARFLines only to decide whether a source map is recorded); " +
 			"(R12.3) a module restored from the cache is fully re-bound: every compiledModule field assigned on the fresh-compile path is assigned on the cache-hit path or by deserialisation; (R12.4) the memory sizer's limits do not depend on the capacity flag; " +
-			"(R12.6) with a custom memory allocator every change of the buffer goes through the allocator (no buffer change outside the allocator branch unless guarded by expBuffer == nil). NOT decided: equality of traces across the configuration lattice.",
+			"(R12.6) with a custom memory allocator every change of the buffer goes through the allocator (no buffer change outside the allocator branch unless guarded by expBuffer == nil). (R12.8) in the compiler's host-call arms, results written by the host function are never masked by the parameter types – the listener variants included, so attaching a listener does not change the values the guest receives; (R12.7) the interpreter indexes the source-offset table of a (possibly cache-shared) compiled function only under a length test of that same table, so a runtime with debug info can use an entry compiled without. NOT decided: equality of traces across the configuration lattice.",
 		Rules: []core.Rule{
+			{ID: "R12.8", Template: "T-SIBLING", Text: "attaching a listener to a host function does not change what happens to its result slots (same analysis as C08 R08.10)", Min: 4},
+			{ID: "R12.7", Template: "T-CONSULT", Text: "the interpreter indexes a cached function's source-offset table only under a length test of that table", Min: 1},
 			{ID: "R12.1", Template: "T-SIBLING", Text: "identity covers every compile input (call-site agreement, every parameter hashed, per-function listener presence)", Min: 4},
 			{ID: "R12.2", Template: "T-WHOCALLS", Text: "no read of a configuration-dependent, non-identity module field in the compile paths", Min: 2},
 			{ID: "R12.3", Template: "T-SIBLING", Text: "fields assigned on the compile path ⊆ fields assigned on the cache-hit path ∪ deserialisation", Min: 1},
@@ -32,6 +34,7 @@ func init() {
 		},
 		Run: runC12,
 		Controls: []core.Control{
+			{Name: "offset-table-guarded-by-instance-flag", File: "internal/engine/interpreter/interpreter.go", Old: "\t\tif parent := frame.f.parent; parent.body != nil && len(parent.offsetsInWasmBinary) > 0 {\n\t\t\tsources = parent.source.DWARFLines.Line(parent.offsetsInWasmBinary[frame.pc])", New: "\t\tif dw := f.moduleInstance.Source.DWARFLines; dw != nil && f.parent.body != nil {\n\t\t\tsources = dw.Line(f.parent.offsetsInWasmBinary[frame.pc])", Rule: "R12.7", Substr: "source-offset"},
 			{Name: "id-without-termination-flag", File: "runtime.go", Old: "internal.AssignModuleID(binary, listeners, r.ensureTermination)", New: "internal.AssignModuleID(binary, listeners, false)", Rule: "R12.1", Substr: "call-site"},
 			{Name: "id-drops-termination-param", File: "internal/wasm/module.go", Old: "\tm.ID[0] = boolToByte(withEnsureTermination)\n\th.Write(m.ID[:1])\n", New: "\t_ = withEnsureTermination\n", Rule: "R12.1", Substr: "withEnsureTermination"},
 			{Name: "id-listener-count-only", File: "internal/wasm/module.go", Old: "\tfor i, l := range listeners {\n\t\tbinary.LittleEndian.PutUint32(m.ID[:], uint32(i))\n\t\tm.ID[4] = boolToByte(l != nil)\n\t\th.Write(m.ID[:5])\n\t}", New: "\tn := 0\n\tfor _, l := range listeners {\n\t\tif l != nil {\n\t\t\tn++\n\t\t}\n\t}\n\tbinary.LittleEndian.PutUint32(m.ID[:], uint32(n))\n\th.Write(m.ID[:4])", Rule: "R12.1", Substr: "per-function"},
@@ -43,6 +46,8 @@ func init() {
 }
 
 func runC12(c *core.Ctx) {
+	checkOffsetTableGuard(c)
+	checkSlotNormalisation(c, "", "R12.8")
 	wp := c.Pkg("internal/wasm")
 	prog := c.SSA()
 	modNamed, _ := wp.Types.Scope().Lookup("Module").Type().(*types.Named)
@@ -569,4 +574,62 @@ func checkAllocatorOwnsBuffer(c *core.Ctx) {
 		c.Undecided("R12.6", "Grow", fn.Pos(), "no buffer change found in Grow")
 	}
 	_ = ast.Inspect
+}
+
+// ---- R12.7 debug-info tables of a cached compiled function are indexed only under a length test of that table ----
+
+func checkOffsetTableGuard(c *core.Ctx) {
+	p := c.Pkg("internal/engine/interpreter")
+	if p == nil {
+		return
+	}
+	info := p.TypesInfo
+	tbl := structField(c, "internal/engine/interpreter", "compiledFunction", "offsetsInWasmBinary")
+	if tbl == nil {
+		c.Undecided("R12.7", "anchor", 0, "compiledFunction.offsetsInWasmBinary not found")
+		return
+	}
+	n := 0
+	core.AllFuncDecls(p, func(fd *ast.FuncDecl) {
+		var stack []ast.Node
+		ast.Inspect(fd.Body, func(x ast.Node) bool {
+			if x == nil {
+				stack = stack[:len(stack)-1]
+				return true
+			}
+			stack = append(stack, x)
+			ix, ok := x.(*ast.IndexExpr)
+			if !ok || core.FieldOf(info, ix.X) != tbl {
+				return true
+			}
+			// writes (building the table) are not reads
+			if len(stack) >= 2 {
+				if as, ok := stack[len(stack)-2].(*ast.AssignStmt); ok {
+					for _, l := range as.Lhs {
+						if l == ast.Expr(ix) {
+							return true
+						}
+					}
+				}
+			}
+			n++
+			guarded := false
+			for i := len(stack) - 1; i >= 0; i-- {
+				if is, ok := stack[i].(*ast.IfStmt); ok {
+					ast.Inspect(is.Cond, func(y ast.Node) bool {
+						if call, ok := y.(*ast.CallExpr); ok && core.IsBuiltin(info, call, "len") && len(call.Args) == 1 && core.FieldOf(info, call.Args[0]) == tbl {
+							guarded = true
+						}
+						return true
+					})
+				}
+			}
+			c.Check(guarded, "R12.7", "source-offset table indexed under its own length test in "+core.FuncName(p, fd), ix.Pos(), "guarded by len(offsetsInWasmBinary)",
+				"the table is indexed at `"+core.ExprStr(ix)+"` without testing its length: a compiled function taken from a cache shared with a runtime that compiled it without debug info has an empty table, so the trap handler panics (index out of range) and the guest's trap escapes as a Go panic – the debug-info flag changes the outcome of the call")
+			return true
+		})
+	})
+	if n == 0 {
+		c.Discharge("R12.7", "the source-offset table is never indexed", 0, "nothing to guard")
+	}
 }
